@@ -146,6 +146,18 @@ function markerAt(text, off) {
 function isBlank(c) { return c === 32 || c === 9; }
 function isNL(c) { return c === 10 || c === 13 || c === 0x2028 || c === 0x2029; }
 
+// sources are shared by the outputs of one scenario: tokenise each text once
+const SRC_CACHE = new Map();
+function sourceInfo(t) {
+  let v = SRC_CACHE.get(t);
+  if (!v) {
+    v = { text: t, starts: lineStarts(t), tok: tokenize(t) };
+    if (SRC_CACHE.size > 64) SRC_CACHE.clear();
+    SRC_CACHE.set(t, v);
+  }
+  return v;
+}
+
 // ---- one job ----------------------------------------------------------------
 function checkJob(job) {
   const errors = [], stats = { mappings: 0, with_source: 0, marker_true: 0, name_true: 0, cover: 0, plain_same: 0, plain_diff: 0, blank_skips: 0, newline_skips: 0, paren_skips: 0, gen_markers: 0, gen_markers_mapped: 0, sources: 0, dup_gen: 0, lines: 0 };
@@ -185,7 +197,7 @@ function checkJob(job) {
   stats.lines = gStarts.length;
   const gTok = tokenize(code);
   if (gTok.error) return { id: job.id, errors, stats, infra: 'cannot tokenise the generated code: ' + gTok.error };
-  const sInfo = srcText.map(t => t === null ? null : { text: t, starts: lineStarts(t), tok: tokenize(t) });
+  const sInfo = srcText.map(t => t === null ? null : sourceInfo(t));
   for (let i = 0; i < sInfo.length; i++) if (sInfo[i] && sInfo[i].tok.error) return { id: job.id, errors, stats, infra: `cannot tokenise ${map.sources[i]}: ${sInfo[i].tok.error}` };
   // the number of ';' must not exceed the number of lines of the generated code
   let maxLine = 0;
